@@ -6,6 +6,7 @@ import LabtechModel.Driver.PathCmd
 import LabtechModel.Driver.SaveCmd
 import LabtechModel.Driver.HistCmd
 import LabtechModel.Driver.ParamsCmd
+import LabtechModel.Driver.IntrCmd
 /-! Line-protocol driver: one command per input line, one observation line per command. -/
 
 def step (line : String) : String :=
@@ -19,6 +20,7 @@ def step (line : String) : String :=
   | "HIST" :: rest => Lt.Store.Cmd.handle rest
   | "NORM" :: rest => Lt.Params.Cmd.handle "NORM" rest
   | "CTASKS" :: rest => Lt.Params.Cmd.handle "CTASKS" rest
+  | "INTR" :: rest => Lt.IntrCmd.handle rest
   | _ => "bad-op"
 
 partial def loop (h : IO.FS.Stream) (out : IO.FS.Stream) : IO Unit := do
